@@ -26,7 +26,8 @@ ASSUMPTIONS = ["SimTransport.peer_data == one TCP segment arriving (data_receive
                "baseline cross-checked against refproto's frame count/order"]
 REQUIRED_OBS = ["sends_between_segments", "segmentations_ok", "cuts_inside_header", "cuts_inside_crc", "byte_at_a_time",
                 "slow_subscriber_runs", "second_client_receiving_in_the_gaps",
-                "subscribed_while_a_frame_was_incomplete"]
+                "subscribed_while_a_frame_was_incomplete",
+                "log_level_changed_between_segments"]
 SOAK = True   # also judged by the whole-run monitors of the soak sessions (vf/soak.py)
 BUDGET = {"quick": 100, "thorough": 1500}
 
@@ -77,14 +78,16 @@ _BASE = {}
 
 
 def deliver(gen, stream, cuts, gap, debug=False, delays=None, send_in_gap=False, duo=False,
-            late_sub=False):
+            late_sub=False, flip_log=False):
     """Deliver `stream` cut at `cuts`; returns (deliveries, closed, errors, status).
     send_in_gap: the application submits a command after every segment (sending and receiving
     go on at the same time on one connection).
     duo: a second client of the same generation lives in the process, connected to another
     console, and receives a whole frame of its own after every segment.
     late_sub: the socket has no message subscriber until the first segment has been dealt with;
-    the application subscribes in the gap behind it (gap must be "quiesce")."""
+    the application subscribes in the gap behind it (gap must be "quiesce").
+    flip_log: the application changes the library's log level (WARNING <-> DEBUG) between the
+    segments, as a "set log level" service does at run time."""
     import pyairtouch.comms.socket as psock
     from .. import sockscript as S
     sent = []
@@ -122,6 +125,10 @@ def deliver(gen, stream, cuts, gap, debug=False, delays=None, send_in_gap=False,
                 msg, typ, data = S.make_message(gen, S.KINDS[i % 3], 7000 + i)
                 sent.append((typ, bytes(data)))
                 await w.sock.send(msg, psock.RETRY_IDEMPOTENT)
+            if flip_log:
+                import logging
+                lg = logging.getLogger("pyairtouch")
+                lg.setLevel(logging.WARNING if lg.level == logging.DEBUG else logging.DEBUG)
             if gap == "turn1":
                 await asyncio.sleep(0)
             elif gap == "turn3":
@@ -209,6 +216,12 @@ def cases(tier, seed):
                         yield {"k": "cuts", "gen": gen, "stream": sname, "gap": gap, "cuts": ch,
                                "duo": True}
             if full:
+                # the log level changes while a frame is incomplete
+                for gap in ("turn1", "quiesce"):
+                    for ch in _chunks([[i] for i in range(1, n)], 100):
+                        yield {"k": "cuts", "gen": gen, "stream": sname, "gap": gap, "cuts": ch,
+                               "flip_log": True}
+            if full:
                 # the first subscriber arrives while a frame is incomplete
                 for ch in _chunks([[i] for i in range(1, n)], 100):
                     yield {"k": "cuts", "gen": gen, "stream": sname, "gap": "quiesce",
@@ -279,7 +292,11 @@ def run_case(case):
                                             case.get("debug", False), case.get("delays"),
                                             case.get("send_in_gap", False),
                                             case.get("duo", False),
-                                            case.get("late_sub", False))
+                                            case.get("late_sub", False),
+                                            case.get("flip_log", False))
+        if case.get("flip_log"):
+            obs["log_level_changed_between_segments"] = obs.get(
+                "log_level_changed_between_segments", 0) + 1
         if case.get("late_sub") and out is not None and status == "ok":
             # frames complete before the subscription had nobody to go to; every frame that is
             # completed afterwards - the one cut in two included - is delivered
